@@ -206,7 +206,7 @@ Proof.
   assert (WL : forall w, wloop cnt w = WRet v -> w <= cnt -> v = cnt).
   { intros w H Hw. unfold wloop in H. destruct (w <? cnt) eqn:Q; inversion H; subst. apply Z.ltb_ge in Q. lia. }
   destruct kp as [|h|h nx|h nx|h d|h|f|f|sp]; cbn in E; try discriminate E.
-  - destruct (nnext m h); [destruct (0 <? cnt)|]; try discriminate E. injection E as _ E. apply (WL wc); auto; lia.
+  - destruct (nnext m h); [destruct (0 <? cnt); [destruct inm|]|]; try discriminate E; injection E as _ E; apply (WL wc); auto; lia.
   - destruct (fstate m f =? ST_WAITING); [discriminate E|]. injection E as _ E. apply (WL (wc + 1)); auto; lia.
   - injection E as _ E. apply (WL (wc + 1)); auto; lia.
   - destruct sp as [|st]; [discriminate E|]. destruct (waitingish st); [discriminate E|].
